@@ -2,9 +2,15 @@
 //! Family 1 (stream): a byte stream is read with the real iterator, every message is written with to_write, the
 //! written bytes are read again and written again.  Family 2 (msg): DltMessage values built field by field are
 //! written (exercises the length arithmetic incl. the Err returned when header + payload exceed the u16 len field).
+//! Family 3 (export): files with a varied LIFECYCLE HISTORY (every stage between reader and writer of `adlt convert -o`
+//! may reorder / drop: the lifecycle stage buffers, merges and flushes) are exported twice, by the binary and by the same
+//! stages run in this process; the export must re-read to exactly the input messages in input order, frame by frame
+//! byte-identical, and the export of the export must be identical (model: Dlt/WritePipeline.v).
 use adlt::dlt::{parse_dlt_with_storage_header, DltChar4, DltExtendedHeader, DltMessage, DltStandardHeader};
+use adlt::lifecycle::{LifecycleId, LifecycleItem};
 use adlt::utils::DltMessageIterator;
 use std::io::Cursor;
+use vharness::lcgen::{self, MSpec};
 use vharness::*;
 
 #[path = "c01.rs"]
@@ -138,6 +144,58 @@ fn convert_twice(data: &[u8]) -> Option<Result<(Vec<u8>, Vec<u8>), String>> {
     })())
 }
 
+/// family 3: `adlt convert -o a.dlt in.dlt` and `adlt convert -o b.dlt a.dlt`.  When a.dlt is byte-identical to in.dlt the second
+/// command would repeat the first experiment on the same bytes: it is then run only when `always_second` (a sample).
+/// Returns (a, b, second command run) or None when there is no binary.
+type BinExport = Option<Result<(Vec<u8>, Vec<u8>, bool), String>>;
+fn convert_export(data: &[u8], always_second: bool) -> BinExport {
+    let bin = std::env::var("VERIF_ADLT_BIN").ok()?;
+    if !std::path::Path::new(&bin).exists() {
+        return None;
+    }
+    let dir = tempfile::tempdir().ok()?;
+    let p = |n: &str| dir.path().join(n);
+    std::fs::write(p("in.dlt"), data).ok()?;
+    let run = |out: &str, inp: &str| -> Result<Vec<u8>, String> {
+        let o = std::process::Command::new(&bin).arg("convert").arg("-o").arg(p(out)).arg(p(inp)).output().map_err(|e| e.to_string())?;
+        if !o.status.success() {
+            return Err(format!("adlt convert exit {:?}: {}", o.status.code(), String::from_utf8_lossy(&o.stderr)));
+        }
+        std::fs::read(p(out)).map_err(|e| e.to_string())
+    };
+    Some((|| {
+        let a = run("a.dlt", "in.dlt")?;
+        if a == data && !always_second {
+            return Ok((a.clone(), a, false));
+        }
+        let b = run("b.dlt", "a.dlt")?;
+        Ok((a, b, true))
+    })())
+}
+/// the binary runs of many files, in parallel (process spawns only; nothing of the adlt crate runs in these threads)
+fn convert_exports(inputs: &[Vec<u8>]) -> Vec<BinExport> {
+    let next = std::sync::atomic::AtomicUsize::new(0);
+    let out: std::sync::Mutex<Vec<Option<BinExport>>> = std::sync::Mutex::new(inputs.iter().map(|_| None).collect());
+    let nthreads = std::thread::available_parallelism().map(|n| n.get()).unwrap_or(4).clamp(2, 8);
+    std::thread::scope(|sc| {
+        for _ in 0..nthreads {
+            sc.spawn(|| loop {
+                let k = next.fetch_add(1, std::sync::atomic::Ordering::SeqCst);
+                if k >= inputs.len() {
+                    break;
+                }
+                let r = convert_export(&inputs[k], k % 4 == 0);
+                out.lock().unwrap()[k] = Some(r);
+            });
+        }
+    });
+    out.into_inner().unwrap().into_iter().map(|x| x.unwrap()).collect()
+}
+fn export_input(specs: &[MSpec]) -> Result<Vec<u8>, String> {
+    let built: Vec<DltMessage> = specs.iter().enumerate().map(|(i, s)| s.build(i as u32)).collect();
+    write_all(&built)
+}
+
 fn record_stream(sink: &mut Sink, start: u32, segs: Segs, extra: &[&str]) {
     let data = flatten(&segs);
     let fail = |c: &str, d: String| Verdict::Fail { clause: c.into(), detail: d };
@@ -253,6 +311,397 @@ fn record_stream(sink: &mut Sink, start: u32, segs: Segs, extra: &[&str]) {
     sink.push(Case { id, key: input_coq.clone(), input_coq, input_json: json!({"kind": "stream", "start": start, "segs": segs}), obs, verdict, classes: vec![], tags, nontrivial });
 }
 
+
+// ------------------------------------------------------------------ family 3: export of files with a lifecycle history
+/// the stages of an unfiltered, unsorted `adlt convert -o` run in this process: reader (iterator, indices from 0) ->
+/// lifecycle stage (every message goes through parse_lifecycles_buffered_from_stream) -> to_write per message delivered
+fn lib_export(data: &[u8]) -> Result<Vec<u8>, String> {
+    let data = data.to_vec();
+    catch_loc(move || {
+        let mut cur = Cursor::new(data);
+        let it = DltMessageIterator::new(0, &mut cur);
+        let (tx, rx) = std::sync::mpsc::channel();
+        for m in it {
+            tx.send(m).unwrap();
+        }
+        drop(tx);
+        let (_lcs_r, lcs_w) = evmap::new::<LifecycleId, LifecycleItem>();
+        let out = std::cell::RefCell::new(Vec::<u8>::new());
+        let _w = adlt::lifecycle::parse_lifecycles_buffered_from_stream(lcs_w, rx, &|m: DltMessage| {
+            m.to_write(&mut *out.borrow_mut()).expect("to_write into a Vec");
+            Ok(())
+        });
+        out.into_inner()
+    })
+}
+
+/// the frames of a file that the iterator read without skipping anything
+fn frames_of<'a>(data: &'a [u8], r: &Read) -> Vec<&'a [u8]> {
+    let mut off = 0usize;
+    let mut v = vec![];
+    for m in &r.msgs {
+        let n = 16 + m.standard_header.len as usize;
+        v.push(&data[off.min(data.len())..(off + n).min(data.len())]);
+        off += n;
+    }
+    v
+}
+
+/// the export clause, stated on the files: `a` = export of `inp`, `b` = export of `a`
+fn check_export(inp: &[u8], r0: &Read, a: &[u8], b: &[u8]) -> Result<(), (String, String)> {
+    let e = |c: &str, d: String| Err((c.to_string(), d));
+    let ra = match read_all(0, a) {
+        Ok(r) => r,
+        Err(p) => return e("export_readable", p),
+    };
+    if ra.skipped != 0 || ra.rest != 0 || ra.processed != a.len() {
+        return e("export_is_a_sequence_of_messages", format!("skipped {} processed {} of {} rest {}", ra.skipped, ra.processed, a.len(), ra.rest));
+    }
+    let want = frames_of(inp, r0);
+    let got = frames_of(a, &ra);
+    // position in the input of every frame of the export (first unused identical frame)
+    let mut used = vec![false; want.len()];
+    let order: Vec<i64> = got
+        .iter()
+        .map(|g| match (0..want.len()).find(|k| !used[*k] && want[*k] == *g) {
+            Some(k) => {
+                used[k] = true;
+                k as i64
+            }
+            None => -1,
+        })
+        .collect();
+    if got.len() != want.len() || used.iter().any(|u| !u) {
+        let missing: Vec<usize> = (0..want.len()).filter(|k| !used[*k]).collect();
+        if order.iter().all(|k| *k >= 0) || got.len() != want.len() {
+            return e("every_message", format!("{} messages in the input, {} in the export; input positions not (identically) in the export: {:?}", want.len(), got.len(), missing));
+        }
+    }
+    if let Some(k) = (0..got.len()).find(|k| order[*k] != *k as i64) {
+        if order.iter().all(|k| *k >= 0) {
+            return e("same_order", format!("export position {} holds input message {}; input positions in export order: {:?}", k, order[k], order));
+        }
+        // not a permutation: some frame differs
+        if let Err(f) = same_fields(&r0.msgs[k], &ra.msgs[k]) {
+            return e("same_fields", format!("message {}: {}", k, f));
+        }
+        return e("frames_byte_identical", format!("message {}: frame differs from the input frame", k));
+    }
+    for (k, (x, y)) in r0.msgs.iter().zip(ra.msgs.iter()).enumerate() {
+        if let Err(f) = same_fields(x, y) {
+            return e("same_fields", format!("message {}: {}", k, f));
+        }
+        if y.index != k as u32 {
+            return e("same_order", format!("message {} has index {}", k, y.index));
+        }
+    }
+    if b != a {
+        return e("export_of_export_identical", format!("{} vs {} bytes, first difference at {:?}", a.len(), b.len(), a.iter().zip(b.iter()).position(|(x, y)| x != y)));
+    }
+    Ok(())
+}
+
+fn o_file(l: &[u8]) -> O {
+    O::T(vec![O::n(l.len() as u64), O::n(g::cksum(l))])
+}
+
+fn record_exports(sink: &mut Sink, cases: Vec<(Vec<MSpec>, Vec<String>)>) {
+    let inputs: Vec<Vec<u8>> = cases.iter().map(|c| export_input(&c.0).unwrap_or_default()).collect();
+    let bins = convert_exports(&inputs);
+    for ((specs, tags), bin) in cases.into_iter().zip(bins.into_iter()) {
+        let t: Vec<&str> = tags.iter().map(|s| s.as_str()).collect();
+        record_export(sink, specs, &t, Some(bin));
+    }
+}
+
+fn record_export(sink: &mut Sink, specs: Vec<MSpec>, extra: &[&str], bin: Option<BinExport>) {
+    let fail = |c: String, d: String| Verdict::Fail { clause: c, detail: d };
+    let mut verdict = Verdict::Ok;
+    let mut tags: Vec<String> = extra.iter().map(|s| s.to_string()).collect();
+    tags.push("export".into());
+    let built: Vec<DltMessage> = specs.iter().enumerate().map(|(i, s)| s.build(i as u32)).collect();
+    let mut nontrivial = false;
+    let obs = match write_all(&built) {
+        Err(e) => {
+            verdict = fail("write_ok".into(), e);
+            O::T(vec![O::L(7)])
+        }
+        Ok(inp) => {
+            // the lifecycle history of the file, for the distribution statistics (a run of the real detector)
+            let det = lcgen::run_detector(&[], &specs, false);
+            let (lt, _) = lcgen::lc_tags(&[], &specs, &det);
+            let merged = lt.iter().any(|t| t == "merge");
+            for t in lt {
+                tags.push(format!("lc_{}", t));
+            }
+            tags.push(format!("lc_lifecycles{}", det.table.len().min(6)));
+            if specs.iter().any(|m| !m.has_ts) {
+                tags.push("lc_no_timestamp".into());
+            }
+            if specs.iter().any(|m| m.kind >= 2) {
+                tags.push("lc_ctrl_response".into());
+            }
+            nontrivial = specs.len() >= 3 && (merged || det.table.len() >= 2);
+            match read_all(0, &inp) {
+                Err(e) => {
+                    verdict = fail("input_readable".into(), e);
+                    O::T(vec![O::L(6), o_file(&inp)])
+                }
+                Ok(r0) => {
+                    if r0.msgs.len() != built.len() || r0.skipped != 0 || r0.rest != 0 {
+                        verdict = fail("input_is_the_messages_written".into(), format!("{} messages written, {} read, skipped {}", built.len(), r0.msgs.len(), r0.skipped));
+                    } else if let Some((k, e)) = built.iter().zip(r0.msgs.iter()).enumerate().find_map(|(k, (x, y))| same_fields(x, y).err().map(|e| (k, e))) {
+                        // (MSpec never sets a timestamp without the flag unless the generator says so: compare only what is written)
+                        if !(e == "timestamp" && !built[k].standard_header.has_timestamp()) {
+                            verdict = fail("same_fields".into(), format!("input message {}: {}", k, e));
+                        }
+                    }
+                    let lib = lib_export(&inp).and_then(|a| lib_export(&a).map(|b| (a, b)));
+                    let bin: Option<Result<(Vec<u8>, Vec<u8>), String>> = match bin.unwrap_or_else(|| convert_export(&inp, true)) {
+                        None => {
+                            tags.push("e2e_skipped_no_binary".into());
+                            None
+                        }
+                        Some(r) => {
+                            tags.push(match &r {
+                                Ok((_, _, true)) => "e2e_convert_twice".into(),
+                                Ok((_, _, false)) => "e2e_convert_once_export_identical_to_input".into(),
+                                Err(_) => "e2e_convert_failed".into(),
+                            });
+                            Some(r.map(|(a, b, _)| (a, b)))
+                        }
+                    };
+                    // the clause on both: the binary first (it is the property's observation point)
+                    if matches!(verdict, Verdict::Ok) {
+                        match &bin {
+                            Some(Err(e)) => verdict = fail("convert_o_runs".into(), e.clone()),
+                            Some(Ok((a, b))) => {
+                                if let Err((c, d)) = check_export(&inp, &r0, a, b) {
+                                    verdict = fail(format!("convert_o_{}", c), d);
+                                }
+                            }
+                            None => {}
+                        }
+                    }
+                    if matches!(verdict, Verdict::Ok) {
+                        match &lib {
+                            Err(e) => verdict = fail("pipeline_stages_run".into(), e.clone()),
+                            Ok((a, b)) => {
+                                if let Err((c, d)) = check_export(&inp, &r0, a, b) {
+                                    verdict = fail(format!("pipeline_stages_{}", c), d);
+                                }
+                            }
+                        }
+                    }
+                    // observation: the binary's files when there is a binary, else those of the stages run here
+                    let files: Result<(Vec<u8>, Vec<u8>), String> = match bin {
+                        Some(r) => r,
+                        None => lib,
+                    };
+                    match files {
+                        Err(_) => O::T(vec![O::L(6), o_file(&inp)]),
+                        Ok((a, b)) => {
+                            let order = match read_all(0, &a) {
+                                Ok(ra) => O::T(vec![O::T(ra.msgs.iter().map(|m| O::n(m.mcnt())).collect()), O::n(ra.rest as u64)]),
+                                Err(_) => O::L(1),
+                            };
+                            O::T(vec![O::L(5), o_file(&inp), o_file(&a), order, O::b(a == b)])
+                        }
+                    }
+                }
+            }
+        }
+    };
+    let input_coq = format!("(CExport {})", clist(&specs.iter().map(|s| format!("({}, {}, {}, {}, {})", s.ecu, s.rt, s.ts_dms, cbool(s.has_ts), s.kind)).collect::<Vec<_>>()));
+    let id = sink.next_id();
+    sink.push(Case { id, key: input_coq.clone(), input_coq, input_json: json!({"kind": "export", "specs": specs.iter().map(|m| m.json()).collect::<Vec<_>>()}), obs, verdict, classes: vec![], tags, nontrivial });
+}
+
+/// One ECU "A" with a lifecycle A1 that is confirmed by its timestamp span (> 60 s); then k messages that look like a new boot
+/// (small timestamp, calculated start after the end of A1: a tentative lifecycle, buffered); then a late message with a
+/// large timestamp that moves the tentative start back into A1 (merge into the published predecessor; when no other
+/// lifecycle is buffered the queue is flushed in front of the late message); regular messages afterwards; optionally a
+/// second round.  0..2 other ECUs whose lifecycles are confirmed early, still buffered at that moment, or start late.
+/// Boundaries varied: k = 0..4, moves around the 60 s limit, starts around the 2 s "slightly overlapping" window, streams
+/// ending while the tentative lifecycle is still buffered or right after the merge, messages without timestamp, control
+/// messages, reception steps below and above the once-per-second confirmation check.
+fn gen_merge_back(rng: &mut Rng) -> (Vec<MSpec>, u64) {
+    let s = 1_000_000u64;
+    let t0 = lcgen::RHO + rng.below(3_000_000) * s + rng.below(s);
+    let a = rng.range(1, 4) as u8;
+    let mut tl: Vec<MSpec> = vec![]; // merged by reception time at the end (stable)
+    let dms = |us: u64| (us / 100).min(u32::MAX as u64) as u32;
+    // ---- A1
+    let boot = t0;
+    let n1 = match rng.below(4) {
+        0 => 2,
+        1 => rng.range(3, 6),
+        _ => rng.range(7, 30),
+    };
+    let span = match rng.below(8) {
+        0 => rng.range(20, 59) * s, // not confirmed by its span
+        _ => rng.range(61, 90) * s + rng.below(s),
+    };
+    let ts1 = rng.range(0, 3) * s + rng.below(s) / 100 * 100;
+    let mut max_ts = 0u64;
+    for k in 0..n1 {
+        let ts = (ts1 + span * k / (n1 - 1) + if k > 0 && k + 1 < n1 { rng.below(400_000) } else { 0 }) / 100 * 100;
+        max_ts = max_ts.max(ts);
+        let delay = if rng.chance(1, 6) { rng.below(200_000) } else { 0 };
+        tl.push(MSpec { ecu: a, rt: boot + ts + delay, ts_dms: dms(ts), has_ts: true, kind: if rng.chance(1, 25) { 1 } else { 0 } });
+    }
+    let mut a_end = boot + max_ts;
+    let mut now = tl.iter().map(|m| m.rt).max().unwrap();
+    let mut k_first = 0u64;
+    let rounds = if rng.chance(1, 3) { 2 } else { 1 };
+    let mut stop = false;
+    for round in 0..rounds {
+        // ---- tentative lifecycle: k messages
+        let k = *rng.pick(&[0u64, 1, 1, 1, 1, 2, 2, 3, 3, 4]);
+        if round == 0 {
+            k_first = k;
+        }
+        let gap = match rng.below(4) {
+            0 => rng.range(50_000, 2 * s),
+            1 => rng.range(40 * s, 58 * s),
+            _ => rng.range(2 * s, 40 * s),
+        };
+        let ts0 = match rng.below(4) {
+            0 => 0,
+            1 => rng.range(1, 50) * 100,
+            _ => rng.range(s / 10, 3 * s) / 100 * 100,
+        };
+        let step = if rng.chance(1, 3) { rng.range(1_100_000, 2_500_000) } else { rng.range(1_000, 400_000) };
+        let tent_start = a_end + gap;
+        let mut rt = tent_start + ts0;
+        rt = rt.max(now + 1);
+        let tent_start = rt - ts0;
+        for j in 0..k {
+            let ts = ts0 + j * step / 100 * 100;
+            tl.push(MSpec { ecu: a, rt: tent_start + ts, ts_dms: dms(ts), has_ts: true, kind: 0 });
+            now = tent_start + ts;
+        }
+        if k > 0 && rng.chance(1, 8) {
+            stop = true; // the stream ends while the tentative lifecycle is still buffered
+            break;
+        }
+        // ---- the late message: calculated start d before the end of A1
+        now += rng.range(200_000, 3 * s);
+        let room = (60 * s).saturating_sub(tent_start - a_end);
+        let d = match rng.below(10) {
+            0 => rng.range(0, 2 * s),                       // inside the "slightly overlapping" window: no merge
+            1 => room + rng.range(1, 20 * s),               // moves the start by more than 60 s
+            2 => room.saturating_sub(rng.below(1000)).max(2 * s + 1),
+            _ => rng.range(2 * s + 1, room.max(2 * s + 2)),
+        };
+        let target = a_end.saturating_sub(d).max(boot.saturating_sub(50 * s));
+        let ts = (now - target) / 100 * 100;
+        tl.push(MSpec { ecu: a, rt: now, ts_dms: dms(ts), has_ts: true, kind: 0 });
+        a_end = a_end.max(target + ts);
+        if rng.chance(1, 6) {
+            stop = true; // the stream ends right after the merge
+            break;
+        }
+        // ---- regular messages of A afterwards
+        for _ in 0..rng.below(7) {
+            now += if rng.chance(1, 4) { rng.range(1_100_000, 2_500_000) } else { rng.range(100_000, 900_000) };
+            let (ts, has_ts, kind) = match rng.below(12) {
+                0 => (0, false, 0),
+                1 => (now - boot, true, 1),
+                2 => (now - boot, true, 2),
+                3 => (now - boot, true, 3),
+                _ => ((now - boot - rng.below(100_000)) / 100 * 100, true, 0),
+            };
+            if has_ts {
+                a_end = a_end.max(boot + ts);
+            }
+            tl.push(MSpec { ecu: a, rt: now, ts_dms: dms(ts), has_ts, kind });
+        }
+    }
+    let end = now;
+    // ---- other ECUs
+    let necu = *rng.pick(&[0u64, 0, 1, 1, 2]);
+    for j in 0..necu {
+        let b = ((a as u64 - 1 + 1 + j) % 4 + 1) as u8;
+        let bboot = t0 - rng.below(20 * s);
+        match rng.below(3) {
+            0 => {
+                // confirmed early by its span, a few messages spread over the whole trace
+                let n = rng.range(2, 8);
+                let sp = (end - t0).max(62 * s);
+                for k in 0..n {
+                    let ts = (rng.range(0, 2) * s + sp * k / (n - 1)) / 100 * 100;
+                    tl.push(MSpec { ecu: b, rt: bboot + ts + 20 * s, ts_dms: dms(ts + 20 * s), has_ts: true, kind: 0 });
+                }
+            }
+            1 => {
+                // a young lifecycle (span < 60 s) that is still buffered around the merge
+                let n = rng.range(1, 5);
+                let from = end.saturating_sub(rng.range(5, 45) * s).max(t0);
+                for k in 0..n {
+                    let ts = (s + k * rng.range(100_000, 3 * s)) / 100 * 100;
+                    tl.push(MSpec { ecu: b, rt: from + ts, ts_dms: dms(ts), has_ts: true, kind: 0 });
+                }
+            }
+            _ => {
+                // starts after everything else
+                let n = rng.range(1, 3);
+                for k in 0..n {
+                    let ts = (s / 2 + k * 700_000) / 100 * 100;
+                    tl.push(MSpec { ecu: b, rt: end + s + ts, ts_dms: dms(ts), has_ts: rng.chance(9, 10), kind: 0 });
+                }
+            }
+        }
+    }
+    let _ = stop;
+    tl.sort_by_key(|m| m.rt); // stable: messages of one ECU keep their order
+    for m in tl.iter_mut() {
+        if !m.has_ts {
+            m.ts_dms = 0;
+        }
+    }
+    (tl, k_first)
+}
+
+/// (reception ms, timestamp ms) relative to RHO, one ECU: a dense confirmed lifecycle, k tentative messages, the late message, a tail
+fn merge_back_dense(k: u64, n1: u64, tail: u64) -> Vec<MSpec> {
+    let mut v: Vec<(u64, u64)> = vec![];
+    for i in 0..n1 {
+        let ts = 1_000 + i * 75_000 / n1.max(1);
+        v.push((ts, ts));
+    }
+    for j in 0..k {
+        v.push((85_000 + j * 100, 1_000 + j * 100));
+    }
+    v.push((86_000, 50_000));
+    for i in 0..tail {
+        let ts = 87_000 + i * 1_000;
+        v.push((ts, ts));
+    }
+    v.into_iter().map(|(r, t)| MSpec { ecu: 1, rt: lcgen::RHO + r * 1000, ts_dms: (t * 10) as u32, has_ts: true, kind: 0 }).collect()
+}
+
+fn export_cases(out: &mut Vec<(Vec<MSpec>, Vec<String>)>, rng: &mut Rng, n: u64, max_general: u64) {
+    let mut add = |specs: Vec<MSpec>, tags: &[&str]| out.push((specs, tags.iter().map(|s| s.to_string()).collect()));
+    for k in 0..n {
+        match k % 12 {
+            0 | 3 | 6 | 9 | 11 => {
+                let (specs, kt) = gen_merge_back(rng);
+                let t = format!("merge_back_k{}", kt);
+                add(specs, &["gen_merge_back", &t]);
+            }
+            1 | 7 => add(lcgen::gen_scenario(rng), &["gen_scenario"]),
+            2 => add(lcgen::gen_merge_template(rng), &["gen_merge_template"]),
+            4 | 10 => {
+                let max_len = match rng.below(6) { 0 => max_general, 1 | 2 => 40, _ => 14 };
+                add(lcgen::gen_general(rng, max_len), &["gen_general"])
+            }
+            5 => add(lcgen::gen_resume_chain(rng), &["gen_resume_chain"]),
+            _ => add(lcgen::gen_clean(rng).msgs, &["gen_clean"]),
+        }
+    }
+}
+
 #[derive(Clone)]
 struct CMsg {
     rt: u64,
@@ -353,7 +802,9 @@ fn main() {
     if let Some(p) = &a.replay {
         let v = read_replay(p);
         let c = &v["case"];
-        if c["kind"] == "stream" {
+        if c["kind"] == "export" {
+            record_export(&mut sink, c["specs"].as_array().unwrap().iter().map(MSpec::from_json).collect(), &["replay"], None);
+        } else if c["kind"] == "stream" {
             record_stream(&mut sink, c["start"].as_u64().unwrap() as u32, serde_json::from_value(c["segs"].clone()).unwrap(), &["replay"]);
         } else {
             let a4 = |x: &Value| -> [u8; 4] {
@@ -407,6 +858,24 @@ fn main() {
                 ext: if ext { Some((0x41, 1, *b"APID", *b"CTID")) } else { None }, payload: vec![(plen as u64, vec![0x5a])] }, &["corpus", "u16_boundary"]);
         }
     }
+    // family 3: own random stream, so that the cases of the families above do not depend on it
+    let mut xrng = Rng::new(a.seed ^ 0xe4b0_27);
+    let mut xcases: Vec<(Vec<MSpec>, Vec<String>)> = vec![];
+    if a.tier != "search" {
+        let t = |l: &[&str]| -> Vec<String> { l.iter().map(|s| s.to_string()).collect() };
+        // a dense confirmed lifecycle, k = 0..4 messages of a tentative lifecycle merged back, with and without a tail
+        for k in 0..5u64 {
+            xcases.push((merge_back_dense(k, 50, 5), t(&["corpus", "merge_back_dense"])));
+            xcases.push((merge_back_dense(k, 12, if k % 2 == 0 { 0 } else { 2 }), t(&["corpus", "merge_back_dense"])));
+        }
+        for (_pre, msgs) in lcgen::corpus().into_iter().filter(|c| c.0.is_empty()) {
+            xcases.push((msgs, t(&["corpus", "lc_corpus"])));
+        }
+        xcases.push((vec![], t(&["corpus", "empty_file"])));
+    }
+    let ne = a.count.unwrap_or(if quick { 260 } else if a.tier == "search" { 900 } else { 3000 });
+    export_cases(&mut xcases, &mut xrng, ne, if quick { 60 } else { 80 });
+    record_exports(&mut sink, xcases);
     let n = a.count.unwrap_or(if quick { 300 } else if a.tier == "search" { 1200 } else { 5000 });
     for k in 0..n {
         match k % 4 {
